@@ -3,10 +3,6 @@
 EXTENDS Ring16, FiniteSets
 INSTANCE Mat WITH RAdd <- Add, RMul <- Mul, RConj <- Conj, RZero <- RZero, ROne <- ROne
 Q(n) == [k \in 1..n |-> 2]                        \* n qubit wires
-\* entrywise operations
-MapT(A, f(_)) == [A EXCEPT !.a = TLCEval([k \in 1..Len(A.a) |-> f(A.a[k])])]
-ScaleT(s, A) == MapT(A, LAMBDA v : Mul(s, v))
-AddT(A, B) == [A EXCEPT !.a = TLCEval([k \in 1..Len(A.a) |-> Add(A.a[k], B.a[k])])]
 IsZeroT(A) == \A k \in 1..Len(A.a) : IsZero(A.a[k])
 \* A = lambda B for some lambda # 0 (exact): zero-ness agrees and all 2x2 cross products vanish
 PropTo(A, B) == /\ A.dom = B.dom /\ A.cod = B.cod
